@@ -1991,51 +1991,146 @@ theorem readBlocks_print (useHex : Int → Bool) : ∀ (bs : List Block), bs ≠
 
 theorem sOpen_identEnd : identEnd (sOpen ++ r) = true := by simp [sOpen, identEnd, inTail, inHead, isAlpha, isUpper, isLower, isDigit]
 
-theorem param_ty_step (t : Ty) (i : Ident) (tail : Bytes) (hi : identOK i) :
-    TyParse.parseTy (tyFuel (tyString t ++ 32 :: (identString i ++ tail))) (tyString t ++ 32 :: (identString i ++ tail))
-      = some (t, 32 :: (identString i ++ tail)) :=
-  tyval_step (fun _ => false) t (.loc i) tail hi
+/-- the attribute keywords of a parameter are pairwise divergent, and none starts with `a`, `(` (what a type may go on with) or `%` (an identifier) -/
+theorem kParamAttr_diverge : keysDiverge kParamAttr = true := by decide +kernel
+theorem kParamAttr_heads : kParamAttr.all (fun k => match k with | c :: _ => c != 97 && c != 40 && c != 37 | [] => false) = true := by decide
 
-theorem readParams_print : ∀ (ps : List (Ty × Ident)), ps ≠ [] → (∀ p ∈ ps, identOK p.2) → ∀ (R : Bytes) f, ps.length ≤ f →
+theorem kParamAttr_head (j : Nat) (hj : j < kParamAttr.length) : ∃ c r, kParamAttr.getD j [] = c :: r ∧ c ≠ 97 ∧ c ≠ 40 ∧ c ≠ 37 := by
+  have hm : kParamAttr.getD j [] ∈ kParamAttr := by
+    have : kParamAttr.getD j [] = kParamAttr[j] := by simp [List.getD, List.getElem?_eq_getElem hj]
+    rw [this]; exact List.getElem_mem hj
+  have := List.all_eq_true.mp kParamAttr_heads _ hm
+  cases hk : kParamAttr.getD j [] with
+  | nil => rw [hk] at this; simp at this
+  | cons c r =>
+    rw [hk] at this
+    simp only [Bool.and_eq_true, bne_iff_ne, ne_eq] at this
+    exact ⟨c, r, rfl, this.1.1, this.1.2, this.2⟩
+
+/-- a parameter is well-formed: an identifier, attribute positions within the list -/
+def pattrOK (p : (Ty × Ident) × List Nat) : Prop := identOK p.1.2 ∧ ∀ j ∈ p.2, j < kParamAttr.length
+
+/-- what follows the type of a parameter starts neither with `a` nor with `(` -/
+theorem pattr_follow (a : List Nat) (i : Ident) (tail : Bytes) (ha : ∀ j ∈ a, j < kParamAttr.length) (hi : identOK i) :
+    ∃ h rest, flagsString kParamAttr a ++ (identString i ++ tail) = h :: rest ∧ h ≠ 97 ∧ h ≠ 40 := by
+  cases a with
+  | nil =>
+    obtain ⟨rest, hh⟩ := identString_head i hi
+    exact ⟨37, rest ++ tail, by simp [flagsString, hh], by decide, by decide⟩
+  | cons j a' =>
+    obtain ⟨c, r, hk, h97, h40, _⟩ := kParamAttr_head j (ha j (by simp))
+    exact ⟨c, r ++ [32] ++ (flagsString kParamAttr a' ++ (identString i ++ tail)), by simp only [flagsString, hk]; simp, h97, h40⟩
+
+theorem param_ty_step (t : Ty) (a : List Nat) (i : Ident) (tail : Bytes) (ha : ∀ j ∈ a, j < kParamAttr.length) (hi : identOK i) :
+    TyParse.parseTy (tyFuel (tyString t ++ 32 :: (flagsString kParamAttr a ++ (identString i ++ tail)))) (tyString t ++ 32 :: (flagsString kParamAttr a ++ (identString i ++ tail)))
+      = some (t, 32 :: (flagsString kParamAttr a ++ (identString i ++ tail))) := by
+  obtain ⟨h, rest, heq, h97, h40⟩ := pattr_follow a i tail ha hi
+  rw [heq]
+  apply TyParse.parseTy_tyString_gen
+  · simp [TyParse.cont]
+  · unfold TyParse.stopG
+    split
+    · rename_i e; simp at e
+    · rename_i e; simp at e; exact absurd e.1 h97
+    · rename_i e; simp at e; exact absurd e.1 h40
+    · rfl
+  · have := TyParse.w_le_len t
+    unfold tyFuel; simp only [List.length_append]; omega
+
+/-- no attribute keyword starts an identifier -/
+theorem pattr_rest (i : Ident) (tail : Bytes) (hi : identOK i) : ∀ k ∈ kParamAttr, TyParse.stripPrefix (k ++ [32]) (identString i ++ tail) = none := by
+  intro k hk
+  obtain ⟨rest, hh⟩ := identString_head i hi
+  have := List.all_eq_true.mp kParamAttr_heads k hk
+  cases k with
+  | nil => simp at this
+  | cons c r =>
+    simp only [Bool.and_eq_true, bne_iff_ne, ne_eq] at this
+    rw [hh]
+    simp [TyParse.stripPrefix, this.2]
+
+theorem readParams_print : ∀ (ps : List ((Ty × Ident) × List Nat)), ps ≠ [] → (∀ p ∈ ps, pattrOK p) → ∀ (R : Bytes) f, ps.length ≤ f →
     readParams f (paramsString ps ++ 41 :: R) = some (ps, 41 :: R)
   | [], h, _, _, _, _ => absurd rfl h
-  | [(t, i)], _, hp, R, f, hf => by
+  | [((t, i), a)], _, hp, R, f, hf => by
     obtain ⟨f', rfl⟩ : ∃ f', f = f' + 1 := ⟨f - 1, by simp at hf; omega⟩
-    have e : paramsString [(t, i)] ++ 41 :: R = tyString t ++ 32 :: (identString i ++ 41 :: R) := by simp [paramsString]
-    rw [e, readParams, param_ty_step _ _ _ (hp (t, i) (by simp))]
-    simp only [readIdent_identString i (41 :: R) (hp (t, i) (by simp)) (by simp [identEnd, inTail, inHead, isAlpha, isUpper, isLower, isDigit])]
+    obtain ⟨hi, ha⟩ := hp ((t, i), a) (by simp)
+    have e : paramsString [((t, i), a)] ++ 41 :: R = tyString t ++ 32 :: (flagsString kParamAttr a ++ (identString i ++ 41 :: R)) := by simp [paramsString]
+    rw [e, readParams, param_ty_step t a i (41 :: R) ha hi]
+    have hfl := readFlags_print kParamAttr (identString i ++ 41 :: R) kParamAttr_diverge (pattr_rest i (41 :: R) hi) a
+      ((flagsString kParamAttr a ++ (identString i ++ 41 :: R)).length + 1) ha (by
+        have := flagsString_len kParamAttr a; simp only [List.length_append]; omega)
+    simp only [hfl, readIdent_identString i (41 :: R) hi (by simp [identEnd, inTail, inHead, isAlpha, isUpper, isLower, isDigit])]
     rfl
-  | (t, i) :: q :: ps, _, hp, R, f, hf => by
+  | ((t, i), a) :: q :: ps, _, hp, R, f, hf => by
     obtain ⟨f', rfl⟩ : ∃ f', f = f' + 1 := ⟨f - 1, by simp at hf; omega⟩
-    have e : paramsString ((t, i) :: q :: ps) ++ 41 :: R = tyString t ++ 32 :: (identString i ++ (sComma ++ (paramsString (q :: ps) ++ 41 :: R))) := by
+    obtain ⟨hi, ha⟩ := hp ((t, i), a) (by simp)
+    have e : paramsString (((t, i), a) :: q :: ps) ++ 41 :: R
+        = tyString t ++ 32 :: (flagsString kParamAttr a ++ (identString i ++ (sComma ++ (paramsString (q :: ps) ++ 41 :: R)))) := by
       simp [paramsString]
     have ih := readParams_print (q :: ps) (by simp) (fun x hx => hp x (by simp [hx])) R f' (by simp at hf ⊢; omega)
-    rw [e, readParams, param_ty_step _ _ _ (hp (t, i) (by simp))]
-    have hri := readIdent_identString i (sComma ++ (paramsString (q :: ps) ++ 41 :: R)) (hp (t, i) (by simp))
+    rw [e, readParams, param_ty_step t a i _ ha hi]
+    have hfl := readFlags_print kParamAttr (identString i ++ (sComma ++ (paramsString (q :: ps) ++ 41 :: R))) kParamAttr_diverge (pattr_rest i _ hi) a
+      ((flagsString kParamAttr a ++ (identString i ++ (sComma ++ (paramsString (q :: ps) ++ 41 :: R)))).length + 1) ha (by
+        have := flagsString_len kParamAttr a; simp only [List.length_append]; omega)
+    have hri := readIdent_identString i (sComma ++ (paramsString (q :: ps) ++ 41 :: R)) hi
       (by simp [sComma, identEnd, inTail, inHead, isAlpha, isUpper, isLower, isDigit])
-    simp only [hri]
+    simp only [hfl, hri]
     simp [sComma, ih]
 
-theorem paramsString_len : ∀ (ps : List (Ty × Ident)), ps.length ≤ (paramsString ps).length
+theorem paramsString_len : ∀ (ps : List ((Ty × Ident) × List Nat)), ps.length ≤ (paramsString ps).length
   | [] => by simp
-  | [(t, i)] => by
+  | [((t, i), a)] => by
     obtain ⟨c, rest, h, _⟩ := TyParse.tyString_head t
     simp [paramsString, h]
-  | (t, i) :: q :: ps => by
+  | ((t, i), a) :: q :: ps => by
     have := paramsString_len (q :: ps)
     obtain ⟨c, rest, h, _⟩ := TyParse.tyString_head t
     simp only [paramsString, List.length_append, List.length_cons, h] at this ⊢
     omega
 
-theorem paramsString_head (p : Ty × Ident) (ps : List (Ty × Ident)) :
+theorem paramsString_head (p : (Ty × Ident) × List Nat) (ps : List ((Ty × Ident) × List Nat)) :
     ∃ c rest, paramsString (p :: ps) = c :: rest ∧ c ≠ 41 := by
-  obtain ⟨t, i⟩ := p
+  obtain ⟨⟨t, i⟩, a⟩ := p
   obtain ⟨c, rest, h, hc⟩ := TyParse.tyString_head t
   have h41 : c ≠ 41 := by
     intro e; subst e; simp [TyParse.tyStart] at hc
   cases ps with
-  | nil => exact ⟨c, rest ++ ([32] ++ identString i), by simp [paramsString, h], h41⟩
-  | cons q qs => exact ⟨c, rest ++ ([32] ++ identString i ++ sComma ++ paramsString (q :: qs)), by simp [paramsString, h], h41⟩
+  | nil => exact ⟨c, rest ++ ([32] ++ flagsString kParamAttr a ++ identString i), by simp [paramsString, h], h41⟩
+  | cons q qs => exact ⟨c, rest ++ ([32] ++ flagsString kParamAttr a ++ identString i ++ sComma ++ paramsString (q :: qs)), by simp [paramsString, h], h41⟩
+
+/-- the parameters zipped with their attributes are well-formed when both lists are -/
+theorem zipA_ok : ∀ (ps : List (Ty × Ident)) (as : List (List Nat)), (∀ p ∈ ps, identOK p.2) → (∀ a ∈ as, ∀ j ∈ a, j < kParamAttr.length) →
+    ∀ p ∈ zipA ps as, pattrOK p
+  | [], _, _, _ => by simp [zipA]
+  | p :: ps, [], hp, ha => by
+    intro x hx
+    simp only [zipA, List.mem_cons] at hx
+    rcases hx with rfl | hx
+    · exact ⟨hp p (by simp), by simp⟩
+    · exact zipA_ok ps [] (fun y hy => hp y (by simp [hy])) (by simp) x hx
+  | p :: ps, a :: as, hp, ha => by
+    intro x hx
+    simp only [zipA, List.mem_cons] at hx
+    rcases hx with rfl | hx
+    · exact ⟨hp p (by simp), ha a (by simp)⟩
+    · exact zipA_ok ps as (fun y hy => hp y (by simp [hy])) (fun b hb => ha b (by simp [hb])) x hx
+
+theorem zipA_fst : ∀ (ps : List (Ty × Ident)) (as : List (List Nat)), (zipA ps as).map (·.1) = ps
+  | [], _ => by simp [zipA]
+  | p :: ps, [] => by simp [zipA, zipA_fst ps []]
+  | p :: ps, a :: as => by simp [zipA, zipA_fst ps as]
+
+theorem zipA_snd : ∀ (ps : List (Ty × Ident)) (as : List (List Nat)), as.length = ps.length → (zipA ps as).map (·.2) = as
+  | [], [], _ => by simp [zipA]
+  | [], _ :: _, h => by simp at h
+  | _ :: _, [], h => by simp at h
+  | p :: ps, a :: as, h => by simp [zipA, zipA_snd ps as (by simpa using h)]
+
+theorem zipA_nil_iff (ps : List (Ty × Ident)) (as : List (List Nat)) : zipA ps as = [] ↔ ps = [] := by
+  cases ps with
+  | nil => simp [zipA]
+  | cons p ps => cases as <;> simp [zipA]
 
 /-! ### the clauses behind the parameter list -/
 
@@ -2274,14 +2369,14 @@ theorem readTail_print (t : HTail) (h : tailFieldsOK t) : readTail (41 :: 32 :: 
   simp only [readTail, hr, foldItems_itemsOf t h]
 
 def headerOK (f : Func) : Prop :=
-  f.name ≠ [] ∧ (∀ p ∈ f.params, identOK p.2) ∧ (∀ i ∈ f.lead, i < kLead.length) ∧
+  f.name ≠ [] ∧ (∀ p ∈ zipA f.params f.pattrs, pattrOK p) ∧ (∀ i ∈ f.lead, i < kLead.length) ∧
     (∀ k ∈ kLead, TyParse.stripPrefix (k ++ [32]) (headerRest f) = none) ∧ tailFieldsOK f.tail
 
 /-- the keywords of a function header are pairwise divergent: the reader of the keyword list finds each of them (decided on the list) -/
 theorem kLead_diverge : keysDiverge kLead = true := by decide +kernel
 
 /-- the header from the return type on, read back -/
-theorem readHeaderRest_print (f : Func) (hn : f.name ≠ []) (hp : ∀ p ∈ f.params, identOK p.2) (ht : tailFieldsOK f.tail) (lead : List Nat) :
+theorem readHeaderRest_print (f : Func) (hn : f.name ≠ []) (hp : ∀ p ∈ zipA f.params f.pattrs, pattrOK p) (ht : tailFieldsOK f.tail) (lead : List Nat) :
     (match TyParse.parseTy (tyFuel (headerRest f)) (headerRest f) with
      | some (rt, 32 :: 64 :: r1) =>
        (match takeBody r1 with
@@ -2294,23 +2389,23 @@ theorem readHeaderRest_print (f : Func) (hn : f.name ≠ []) (hp : ∀ p ∈ f.p
                    | none => none)
            | .id _ => none)
         | _ => none)
-     | _ => none) = some (lead, f.ret, f.name, f.params, f.tail) := by
+     | _ => none) = some (lead, f.ret, f.name, zipA f.params f.pattrs, f.tail) := by
   unfold headerRest
   simp only [List.append_assoc, globalName_eq, List.cons_append, List.singleton_append, List.nil_append]
   generalize hR : 41 :: 32 :: (itemsString (itemsOf f.tail) ++ [123]) = R
   have hrt : readTail R = some f.tail := by rw [← hR]; exact readTail_print f.tail ht
-  have hty : TyParse.parseTy (tyFuel (tyString f.ret ++ 32 :: 64 :: (nameBody f.name ++ 40 :: (paramsString f.params ++ R))))
-      (tyString f.ret ++ 32 :: 64 :: (nameBody f.name ++ 40 :: (paramsString f.params ++ R)))
-      = some (f.ret, 32 :: 64 :: (nameBody f.name ++ 40 :: (paramsString f.params ++ R))) := by
+  have hty : TyParse.parseTy (tyFuel (tyString f.ret ++ 32 :: 64 :: (nameBody f.name ++ 40 :: (paramsString (zipA f.params f.pattrs) ++ R))))
+      (tyString f.ret ++ 32 :: 64 :: (nameBody f.name ++ 40 :: (paramsString (zipA f.params f.pattrs) ++ R)))
+      = some (f.ret, 32 :: 64 :: (nameBody f.name ++ 40 :: (paramsString (zipA f.params f.pattrs) ++ R))) := by
     apply TyParse.parseTy_tyString_gen
     · simp [TyParse.cont]
     · simp [TyParse.stopG]
     · have := TyParse.w_le_len f.ret
       unfold tyFuel; simp only [List.length_append]; omega
   rw [hty]
-  have htb := takeBody_nameBody f.name (40 :: (paramsString f.params ++ R)) hn (by simp [identEnd, inTail, inHead, isAlpha, isUpper, isLower, isDigit])
+  have htb := takeBody_nameBody f.name (40 :: (paramsString (zipA f.params f.pattrs) ++ R)) hn (by simp [identEnd, inTail, inHead, isAlpha, isUpper, isLower, isDigit])
   simp only [htb, decode_nameBody f.name hn]
-  cases hps : f.params with
+  cases hps : zipA f.params f.pattrs with
   | nil => subst hR; simp only [paramsString, List.nil_append, List.head?_cons, beq_self_eq_true, if_true, hrt]
   | cons p ps =>
     obtain ⟨c, rest, hh, h41⟩ := paramsString_head p ps
@@ -2320,7 +2415,7 @@ theorem readHeaderRest_print (f : Func) (hn : f.name ≠ []) (hp : ∀ p ∈ f.p
     rw [hR] at hr
     simp only [hd, Bool.false_eq_true, if_false, hr, hrt]
 
-theorem readHeader_print (f : Func) (h : headerOK f) : readHeader (headerString f) = some (f.lead, f.ret, f.name, f.params, f.tail) := by
+theorem readHeader_print (f : Func) (h : headerOK f) : readHeader (headerString f) = some (f.lead, f.ret, f.name, zipA f.params f.pattrs, f.tail) := by
   obtain ⟨hn, hp, hl, hrest, ht⟩ := h
   unfold headerString readHeader
   simp only [List.append_assoc, TyParse.stripPrefix_append]
